@@ -369,6 +369,12 @@ func LoadFromViper(inputViper *viper.Viper) (Config, error) {
 func loadFromViper(v *viper.Viper, home string) (Config, error) {
 	cfg := DefaultConfig
 	cfg.RootDir = home
+	// DefaultConfig.Instrumentation is a pointer: decode into a copy, not into the shared default value,
+	// otherwise one Load would change the defaults every later Load starts from
+	if cfg.Instrumentation != nil {
+		instrumentation := *cfg.Instrumentation
+		cfg.Instrumentation = &instrumentation
+	}
 
 	decoder, err := mapstructure.NewDecoder(&mapstructure.DecoderConfig{
 		DecodeHook: mapstructure.ComposeDecodeHookFunc(
